@@ -75,7 +75,7 @@ func c05RunProgCases(c *core.Ctx, cases []*ProgCase, o ProgOpts) error {
 		for i, pc := range cases {
 			if o.GateFraction >= 1 || rng.Float64() < o.GateFraction {
 				idx = append(idx, i)
-				imps := append([]string{"errors", "fmt"}, pc.Imports...)
+				imps := append([]string{"errors", "fmt", "time"}, pc.Imports...)
 				progs = append(progs, gate.Prog{Imports: imps, Decls: "var _ = errors.New\nvar _ = fmt.Sprint\n" + o.GatePrelude + "\n" + pc.Decls, Entry: pc.Entry})
 			}
 		}
